@@ -261,7 +261,9 @@ class ProblemKind(up.AnyBaseClass, metaclass=ProblemKindMeta):
         return False
 
     def __hash__(self) -> int:
-        return sum(map(hash, self._features))
+        # consistent with __eq__: only the features valid at this version count
+        valid_features = get_valid_features(self.version)
+        return sum(map(hash, self._features.intersection(valid_features)))
 
     def __le__(self, oth: object):
         if not isinstance(oth, ProblemKind):
